@@ -107,5 +107,5 @@ def run(ctx):
 def replay(ctx, path):
     import json as _j
     if _j.load(open(path)).get("signature", "").startswith("c20:work-credited"):
-        return L.generic_replay(ctx, path, "hashrate", "TestVerifBook$", "book", "book.impl.txt")
+        return L.generic_replay(ctx, path, "hashrate", "TestVerifBook$", "book", "book.impl.txt", mode="model")
     return L.generic_replay(ctx, path, HDIR, TEST, "c20", TRANSCRIPT)
